@@ -235,8 +235,12 @@ PROPS = {
         "trusted": [], "assumptions": [],
     },
     "C18": {
-        "lean_targets": ["Pep508.Theorems.C18"],
-        "theorems": ["Pep508.C18.scan_is_rule", "Pep508.C18.rule_url", "Pep508.C18.rule_ambiguous", "Pep508.C18.parse_url_is_rule", "Pep508.parseUrl_total"],
+        "lean_targets": ["Pep508.Theorems.C18", "Pep508.Theorems.C18b"],
+        "theorems": ["Pep508.C18.scan_is_rule", "Pep508.C18.rule_url", "Pep508.C18.rule_ambiguous", "Pep508.C18.parse_url_is_rule", "Pep508.parseUrl_total",
+                     "Pep508.C18.expand_meets_spec", "Pep508.C18.spec_functional", "Pep508.C18.expand_iff_spec", "Pep508.C18.reference_anywhere",
+                     "Pep508.C18.set_variable", "Pep508.C18.unset_variable", "Pep508.C18.project_root_unset", "Pep508.C18.lookupVar_none_iff",
+                     "Pep508.C18.no_rescan", "Pep508.C18.dollar_without_brace", "Pep508.C18.unclosed_reference", "Pep508.C18.empty_name",
+                     "Pep508.C18.bad_name", "Pep508.C18.fuel_suffices", "Pep508.C18.no_dollar_unchanged"],
         "suites": [{"name": "req", "args": ["C18"]}],
         "rule": "EXHAUSTIVE URL tails of length <= 4 (quick) / 5 (thorough) over {x ; # space newline} x five following contexts (end, spaced marker, comment, glued marker, tabs), plus "
                 "16 URL texts with `${NAME}` forms (set / unset / empty / lower-case / unterminated / doubled / PROJECT_ROOT / values containing `;#` and `${...}`) x four process environments: "
@@ -326,10 +330,11 @@ MANIFEST_TEXT = {
     },
     "C18": {
         "technique": "Lean 4 theorem: the URL scanning loop computes the declarative URL-end rule (first stop event, or ambiguity) for every input + exhaustive comparison on bounded "
-                     "URL tails x contexts x environments; `${NAME}` expansion by executable model and independent scanner",
+                     "URL tails x contexts x environments; `${NAME}` expansion: declarative relation `Expands` proved to characterise the executable model (total, functional), compared with the code",
         "text": "urlScan_eq_urlEnd / parseUrl_eq_urlEnd with the first-stop characterisations (rule_url, rule_ambiguous) for all char lists; the slice is handed verbatim to the URL parser "
-                "(given() = unexpanded text). expand_env_vars is an executable Lean definition compared with the code on all generated texts x four environments.",
-        "note": _NOTE + "expandEnvVars has no independent Lean specification yet (correspondence + Rust oracle); url::Url::parse trusted.",
+                "(given() = unexpanded text). expand_iff_spec: expandEnvVars env s = o iff Expands env s o (single left-to-right pass, set / unset / PROJECT_ROOT-when-unset, no re-scanning, malformed references copied); "
+                "the executable definition is compared with the code on all generated texts x four environments.",
+        "note": _NOTE + "url::Url::parse and the regex engine are external (the regex is re-implemented as matchVar and compared); F20's rule (parsed URL ending in `;`/`#` before a marker) is a recorded alternative resolved with the real url crate.",
     },
     "C19": {
         "technique": "Lean 4 theorems: every path, scheme URL, relative path and archive file name (with extras / marker / leading whitespace, any environment) is rejected by the model requirement parser with the unsupported-requirement kind and never accepted; declarative specs of looks_like_archive and split_scheme; differential model on generated shapes; unnamed parser by oracle",
